@@ -317,7 +317,44 @@ def parse_cbmc(out):
     return results, status, msgs
 
 
+class PyJob(Job):
+    """a job decided by a python function instead of cbmc: fn(workdir) -> [(obligation_name, ok_bool, detail_str)].
+    Used for whole-program facts read off the goto symbol table / goto functions (C16)."""
+    def __init__(self, name, fn, **kw):
+        kw.setdefault("replayable", False)
+        Job.__init__(self, name, "(python)", **kw)
+        self.fn = fn
+
+
+def run_pyjob(job):
+    t0 = time.time()
+    res = {"job": job.name, "kind": job.kind, "bound": job.bound, "functions": job.functions, "route": "static-fact",
+           "backend": "goto-cc symbol table + goto functions", "status": "undecided", "obligations": 0, "discharged": 0,
+           "failed": [], "reason": "", "secs": 0.0, "domain": job.domain, "note": job.note, "harness": job.harness,
+           "defines": job.defines, "assumptions": job.assumptions}
+    workdir = tempfile.mkdtemp(prefix=re.sub(r"[^A-Za-z0-9_.-]", "_", job.name) + "-", dir=scratch())
+    try:
+        obl = job.fn(workdir)
+        if len(obl) < job.min_props:
+            raise Undecided("vacuity guard: %d obligations, expected >= %d" % (len(obl), job.min_props))
+        res["obligations"] = len(obl)
+        bad = [o for o in obl if not o[1]]
+        res["discharged"] = len(obl) - len(bad)
+        res["sample_obligations"] = [{"property": o[0], "description": o[2][:160]} for o in obl[:3]]
+        res["failed"] = [{"property": o[0], "description": o[2]} for o in bad]
+        res["status"] = "fail" if bad else "pass"
+    except Undecided as e:
+        res["reason"] = str(e)
+    except Exception as e:
+        res["reason"] = "driver error: %r" % (e,)
+    res["secs"] = round(time.time() - t0, 2)
+    res["_workdir"] = workdir
+    return res
+
+
 def run_job(job):
+    if isinstance(job, PyJob):
+        return run_pyjob(job)
     t0 = time.time()
     res = {"job": job.name, "kind": job.kind, "bound": job.bound, "functions": job.functions,
            "route": job.route, "backend": "cbmc 6.11 + " + job.solver, "status": "undecided",
@@ -489,6 +526,11 @@ def triage(job, res, replay_root):
     workdir = res["_workdir"]
     info = {"job": job.name, "failed_obligations": res["failed"], "harness": job.harness, "defines": job.defines,
             "route": job.route, "replay": None}
+    if isinstance(job, PyJob):
+        info["verifier_output"] = res["failed"]
+        with open(os.path.join(outdir, "counterexample.json"), "w") as f:
+            json.dump(info, f, indent=1, default=str)
+        return outdir, False, info
     gb = os.path.join(workdir, "b.gb" if os.path.exists(os.path.join(workdir, "b.gb")) else "a.gb")
     cmd = cbmc_cmd(job, gb, trace=True)
     rc, out, err, secs, to = sh(cmd, timeout=job.timeout * TIME_SCALE * 2, mem_kb=MEM_KB, cwd=workdir, env={"TMPDIR": workdir})
